@@ -1,143 +1,845 @@
-"""C20 unitary-tensor simplification (structural clauses)."""
+"""C20 unitary-tensor simplification, decided by abstract evaluation on a model of terms.
+
+``simplify_unitary`` (with its nested ``simplify_term_unitary`` and the ``Term`` properties it reads: ``target``,
+``idx``, ``_idx_counter``, ``contracted``) is *evaluated* by sa.symex on small concrete model expressions: a term is a
+record whose objects carry a tensor name, a tuple of index records and an exponent; ``Expr(..)``, ``Pow``,
+``KroneckerDelta``, ``.terms``/``.sympy``/``.assumptions`` of the container classes and ``func.evaluate_deltas`` are
+modelled (products with merged exponents, assumptions carried along).  What comes out is compared with the behaviour
+written down here independently of the source:
+
+  * the reference rewriting of the property text (``normal_forms``): a pair of occurrences of the unitary tensor that
+    shares an index in the same position, that index not being a target index and occurring exactly twice in the
+    term, is replaced by the delta of the two other indices, until no such pair is left; everything else is untouched;
+  * the *value* of the expression for an orthogonal matrix: every model term is evaluated numerically (exact
+    rationals, index range {0, 1}, U = ((3/5, -4/5), (4/5, 3/5)), fixed non-symmetric values for the other tensors) for
+    every assignment of the target indices, before and after.
+
+No source text, local name, statement shape or call spelling takes part in a verdict.
+"""
 from __future__ import annotations
 
-import ast
+import itertools
+from fractions import Fraction
 
-from ..model import AnalysisError, U, Defs, calls_in, call_name, walk_fn, kwarg, enclosing, enclosing_stmt
-from ..pathcond import conditions
-from . import common
+from ..model import AnalysisError
+from ..symex import Symex, Obj, Ent
+from ..terms import T, t_mul, t_add, t_pow, expand_products, rebuild, is_num, show, subterms, sym
 
 EXPLANATION = (
-    "R20a: every KroneckerDelta(a, b) built in simplify_term_unitary is dominated by X == Y for the "
-    "shared position k of the two unitary tensors, X not in target, idx_counter[X] == 2, and a, b "
-    "are the two other positions (1-k) of the same two tensors; only 2-index tensors are accepted. "
-    "R20b: exponent lowering (same object twice: exponent-2; two objects: each -1), all other "
-    "objects multiplied back once, recursion on the new term, every term of the expression added "
-    "once. R20c: the occurrence counter counts term.idx (exponent multiplicity and denominators "
-    "included), pairs come from the unitary objects with exponent multiplicity, delta evaluation "
-    "only on request on the whole result.")
-ASSUMPTIONS = ["value preservation for orthogonal matrices is not decided beyond the per-step guards"]
+    "simplify_unitary (nested simplify_term_unitary and the Term properties target/idx/_idx_counter/contracted evaluated "
+    "through) is run by the abstract evaluator on concrete model expressions (objects = tensor name, index records, "
+    "exponent; Expr/Pow/KroneckerDelta/.terms/.sympy/.assumptions/evaluate_deltas modelled as products with merged "
+    "exponents that carry their assumptions). For every scenario the result must (1) be one of the normal forms of the "
+    "reference rewriting written down from the property (pair of unitary occurrences sharing an index in the same "
+    "position, index not a target, occurring exactly twice -> delta of the two other indices; repeated to the fixed "
+    "point; all other objects, prefactors, exponents, denominators kept), (2) have the same numerical value as the input "
+    "for an orthogonal 2x2 matrix and every assignment of the target indices (exact rationals), (3) carry the "
+    "assumptions of the input expression with no mixing of assumptions on the way. R20a: eligibility guards and delta "
+    "indices (first/second position, mixed positions, shared index on a third object / third unitary tensor / provided "
+    "target, only 2-index tensors). R20b: rebuilding (both occurrences removed, every other object multiplied back once "
+    "wherever it stands, prefactors, recursion to the fixed point, every term of the expression once, fewer than two "
+    "unitary tensors unchanged, assumptions kept, non-Expr input refused). R20c: bookkeeping (occurrences counted with "
+    "exponent multiplicity and denominators, exact tensor name, provided targets instead of Einstein targets, "
+    "Term._idx_counter/idx/target/contracted against a direct count, delta evaluation exactly once and only on request, "
+    "on the whole result, with a target set that protects the true targets - also spin-labelled ones). Thorough tier: "
+    "the same three comparisons on every generated term with 2-3 unitary factors over three indices, an optional "
+    "remainder object and optional provided targets.")
+ASSUMPTIONS = [
+    "bounded: the scenarios listed in the module (thorough: all terms of 2-3 unitary factors over 3 indices with an optional "
+    "remainder object of <= 2 indices and <= 1 provided target); one index space, uniform spin per scenario",
+    "the containers are modelled: Expr/Term/Obj are records (objects, exponent, idx, base_and_exponent, assumptions), products "
+    "merge equal bases like sympy, KroneckerDelta(p, p) = 1 and delta**n = delta; func.evaluate_deltas is modelled by its "
+    "contract (targets = indices on exactly one object of the product if target_idx is None, else get_symbols(target_idx) "
+    "which yields spin-less indices for a string; killable index substituted unless protected)",
+    "orthogonality is represented by one fixed rational rotation matrix (non-symmetric), dimension 2",
+    "excluded from the decided domain (the library does not preserve the value there, see report): (a) a pair that shares "
+    "BOTH indices (same object squared) whose other index is contracted - the library returns 1 where the value is the "
+    "dimension of the space; (b) evaluate_deltas=True together with provided target indices - the delta evaluation uses the "
+    "Einstein targets of the result and may remove a provided target that occurs twice; (c) terms whose Einstein targets "
+    "change under the rewriting (delta_pp = 1 or delta**2 = delta remove occurrences)",
+]
 
-FN = "simplify:simplify_unitary.simplify_term_unitary"
-
-
-def r20a(ctx):
-    rule = "R20a"
-    fn = ctx.model.fn(FN)
-    defs = Defs(fn)
-    res = defs.resolve
-    ds = [a for a in walk_fn(fn) if isinstance(a, ast.Assign) and U(a.targets[0]) == "delta" and call_name(a.value) == "KroneckerDelta"]
-    ctx.floor(rule, "delta constructions in simplify_term_unitary", len(ds), 2)
-    seen = set()
-    for a in ds:
-        args = [U(res(x)) for x in a.value.args]
-        conds = conditions(a, resolve=res)
-        # args are obj[i1].idx[p], obj[i2].idx[p]
-        import re
-        m = [re.fullmatch(r"(.+)\[(i1|i2)\]\.idx\[([01])\]", t) for t in args]
-        if not all(m) or {m[0].group(2), m[1].group(2)} != {"i1", "i2"} or m[0].group(3) != m[1].group(3) \
-                or m[0].group(1) != m[1].group(1):
-            ctx.bad(rule, a, f"delta built from `{args}`; it must link the same position of the two unitary tensors", key="delta args")
-            continue
-        p = int(m[0].group(3))
-        k = 1 - p
-        seen.add(k)
-        pre = m[0].group(1)
-        x1, x2 = f"{pre}[i1].idx[{k}]", f"{pre}[i2].idx[{k}]"
-        eq = (f"{x1} == {x2}", True) in conds or (f"{x2} == {x1}", True) in conds or \
-            (f"{x1} is {x2}", True) in conds or (f"{x2} is {x1}", True) in conds
-        ctx.check(rule, a, eq, f"delta over position {p} only if the tensors share the index at position {k}",
-                  f"delta over position {p} is not dominated by equality of the indices at position {k}", key=f"shared {k}")
-        tg = U(res(ast.Name("target", ast.Load())))
-        ic = U(res(ast.Name("idx_counter", ast.Load())))
-        nt = any((f"{x} in {tg}", False) in conds for x in (x1, x2))
-        ctx.check(rule, a, nt, "shared index is not a target index",
-                  "the shared index may be a target index (the sum over it does not exist)", key=f"target {k}")
-        cnt = any((f"{ic}[{x}] == 2", True) in conds or (f"2 == {ic}[{x}]", True) in conds for x in (x1, x2))
-        ctx.check(rule, a, cnt, "shared index occurs exactly twice in the term",
-                  "the shared index may occur on other objects (idx_counter == 2 not required)", key=f"counter {k}")
-    ctx.check(rule, fn, seen == {0, 1}, "first- and second-position contractions handled", f"positions handled: {sorted(seen)}", key="both positions")
-    ra = [n for n in walk_fn(fn) if isinstance(n, ast.Raise)]
-    ok = any(("any((len(obj[i].idx) != 2 for i in unitary_tensors))", True) in conditions(n) for n in ra)
-    ctx.check(rule, fn, ok, "only 2-index tensors accepted", "2-index check changed", key="two index")
-    cont = [n for n in walk_fn(fn) if isinstance(n, ast.Continue) and isinstance(n._parent, ast.If) and n in n._parent.orelse]
-    ctx.check(rule, fn, len(cont) == 1 and "combinations" in U(enclosing(cont[0], ast.For).iter),
-              "pairs without a shared summed index are skipped", "skip branch changed", key="skip")
+FN = "simplify:simplify_unitary"
+TERM = "expr_container:Term"
+EXPR = "expr_container:Expr"
+UNAME = "U"
+DIM = 2
+UMAT = ((Fraction(3, 5), Fraction(-4, 5)), (Fraction(4, 5), Fraction(3, 5)))
 
 
-def r20b(ctx):
-    rule = "R20b"
-    fn = ctx.model.fn(FN)
-    muls = [n for n in walk_fn(fn) if isinstance(n, ast.AugAssign) and U(n.target) == "new_term" and isinstance(n.op, ast.Mult)]
-    tab = {}
-    for m in muls:
-        cs = conditions(m)
-        v = U(m.value).replace(" ", "")
-        if ("i1 == i2", True) in cs:
-            tab.setdefault("same", []).append(v)
-        elif ("i1 == i2", False) in cs and "Pow" in v:
-            tab.setdefault("two", []).append(v)
+# ------------------------------------------------------------------------------------------------ model values
+
+def tens(name, keys):
+    return T("tens", name, tuple(keys))
+
+
+def delta(a, b):
+    return 1 if a == b else tens("delta", sorted((a, b)))
+
+
+def is_tens(b):
+    return isinstance(b, T) and b.op == "tens"
+
+
+def is_delta(b):
+    return is_tens(b) and b.args[0] == "delta"
+
+
+def keys_of(b):
+    return b.args[1] if is_tens(b) else ()
+
+
+def split_pow(f):
+    if isinstance(f, T) and f.op == "pow" and isinstance(f.args[1], int):
+        return f.args[0], f.args[1]
+    return f, 1
+
+
+def monomials(v):
+    """Sum of products with merged bases: list of (coefficient, {base: exponent}) - what a sympy Add of Muls holds."""
+    acc = {}
+    for c, fs in expand_products(v):
+        d = {}
+        for f in fs:
+            b, e = split_pow(f)
+            d[b] = d.get(b, 0) + e
+        d = {b: (1 if is_delta(b) and e >= 1 else e) for b, e in d.items() if e != 0}
+        k = mono_key(1, d)
+        if k in acc:
+            acc[k] = (acc[k][0] + Fraction(c), d)
         else:
-            tab.setdefault("rest", []).append((v, sorted(t for t, pol in cs if not pol and "==" in t)))
-    ctx.check(rule, fn, tab.get("same") == ["Pow(base,exponent-2)"], "same object twice: exponent lowered by 2",
-              f"same-object branch multiplies {tab.get('same')}", key="same object")
-    ctx.check(rule, fn, sorted(tab.get("two", [])) == ["Pow(b1,exponent1-1)", "Pow(b2,exponent2-1)"], "two objects: each exponent lowered by 1",
-              f"two-object branch multiplies {tab.get('two')}", key="two objects")
-    be = {U(a.targets[0]): U(a.value) for a in walk_fn(fn) if isinstance(a, ast.Assign) and "base_and_exponent" in U(a.value)}
-    ctx.check(rule, fn, be == {"(base, exponent)": "obj[i1].base_and_exponent", "(b1, exponent1)": "obj[i1].base_and_exponent",
-                               "(b2, exponent2)": "obj[i2].base_and_exponent"}, "bases/exponents of the paired objects",
-              f"{be}", key="bases")
-    rest = tab.get("rest", [])
-    ok = len(rest) == 1 and rest[0][0] == "o" and {"i == i1", "i == i2"} <= set(rest[0][1]) or \
-        (len(rest) == 1 and rest[0][0] == "o" and ("i == i1 or i == i2", False) in conditions(
-            [m for m in muls if U(m.value) == "o"][0]))
-    ctx.check(rule, fn, ok, "all other objects multiplied back once", f"remaining objects: {rest}", key="rest")
-    nt = [a for a in walk_fn(fn) if isinstance(a, ast.Assign) and U(a.targets[0]) == "new_term"]
-    ctx.check(rule, fn, len(nt) == 1 and U(nt[0].value) == "e.Expr(delta, **term.assumptions)", "new term starts with the delta",
-              "new term start changed", key="start")
-    rec = [r for r in common.returns_of(fn) if isinstance(r.value, ast.Call) and call_name(r.value) == "simplify_term_unitary"]
-    ctx.check(rule, fn, len(rec) == 1 and U(rec[0].value.args[0]) == "new_term.terms[0]", "recursion on the new term",
-              "recursion changed", key="recursion")
-    top = ctx.model.fn("simplify:simplify_unitary")
-    lp = [n for n in walk_fn(top, nested=False) if isinstance(n, ast.For) and U(n.iter) == "expr.terms"]
-    ok = len(lp) == 1 and len(lp[0].body) == 1 and U(lp[0].body[0]) == f"res += simplify_term_unitary({U(lp[0].target)})"
-    ctx.check(rule, top, ok, "every term simplified and added once", "term loop changed", key="term loop")
-    few = [r for r in common.returns_of(fn) if ("len(unitary_tensors) < 2", True) in conditions(r)]
-    ctx.check(rule, fn, len(few) == 1 and U(few[0].value) == "term", "fewer than two unitary tensors: unchanged", "shortcut changed", key="few")
-    last = common.returns_of(fn)[-1]
-    ctx.check(rule, fn, U(last.value) == "term", "no simplification found: unchanged", "fallback changed", key="fallback")
+            acc[k] = (Fraction(c), d)
+    return [(c, d) for c, d in acc.values() if c != 0]
 
 
-def r20c(ctx):
+def mono_key(c, d):
+    return (Fraction(c), tuple(sorted((repr(b), e) for b, e in d.items())))
+
+
+def expr_key(monos):
+    return tuple(sorted(mono_key(c, d) for c, d in monos))
+
+
+def show_monos(monos):
+    if not monos:
+        return "0"
+    out = []
+    for c, d in monos:
+        fs = [str(c)] if c != 1 or not d else []
+        for b, e in sorted(d.items(), key=lambda x: repr(x[0])):
+            s = f"{b.args[0]}_{''.join(b.args[1])}" if is_tens(b) else show(b)
+            fs.append(s if e == 1 else f"{s}^{e}")
+        out.append(" ".join(fs))
+    return " + ".join(out)
+
+
+def akey_of(real=False, sym_tensors=None, antisym_tensors=None, target_idx=None):
+    def names(x):
+        return tuple(sorted(x)) if isinstance(x, (list, tuple, set, frozenset)) else () if x is None else ("?",)
+    tg = None
+    if target_idx is not None:
+        try:
+            tg = tuple(sorted(_key(x) for x in target_idx))
+        except TypeError:
+            tg = ("?",)
+    return (bool(real) if isinstance(real, bool) else "?", names(sym_tensors), names(antisym_tensors), tg)
+
+
+def _key(x):
+    if isinstance(x, Obj):
+        return x.__dict__["name"]
+    if isinstance(x, str):
+        return x
+    return "?" + show(x)
+
+
+class Rec(Obj):
+    """Record for a container of the library (Expr / Term / Obj); in arithmetic it stands for its content."""
+
+    @property
+    def term(self):
+        return self.__dict__["attrs"]["_image"]
+
+
+class World:
+    """The model objects of one evaluation path."""
+
+    def __init__(self):
+        self.index = {}
+        self.clash = []
+        self.unknown = []
+
+    def ix(self, key):
+        if key not in self.index:
+            name, _, spin = key.partition("_")
+            o = Ent(None, key)
+            o.attrs.update(name=name, spin=spin, space="occ", dummy_index=0)
+            self.index[key] = o
+        return self.index[key]
+
+    def adict(self, akey):
+        real, st, at, tg = akey
+        return {"real": real, "sym_tensors": st, "antisym_tensors": at,
+                "target_idx": None if tg is None else tuple(self.ix(k) for k in tg)}
+
+    def obj_rec(self, base, exp, akey):
+        r = Rec(None, "obj")
+        if is_tens(base):
+            name = None if is_delta(base) else base.args[0]
+            idx = tuple(self.ix(k) for k in base.args[1])
+            val = t_pow(base, exp)
+        else:  # a number
+            name, idx, val, exp = None, (), base, 1
+        r.__dict__["name"] = f"<{show(val)}>"
+        r.attrs.update(name=name, idx=idx, exponent=exp, base=base, base_and_exponent=(base, exp), sympy=val,
+                       assumptions=self.adict(akey), _image=T("cont", val, akey), **self.flags(akey))
+        return r
+
+    def term_rec(self, coeff, facs, akey):
+        """facs: ordered list of (base, exponent)."""
+        objs = []
+        if coeff != 1 or not facs:
+            objs.append(self.obj_rec(_num(coeff), 1, akey))
+        objs += [self.obj_rec(b, e, akey) for b, e in facs]
+        val = t_mul(_num(coeff), *[t_pow(b, e) for b, e in facs])
+        r = Rec(TERM, f"<term {show(val)}>")
+        tg = akey[3]
+        r.attrs.update(objects=tuple(objs), provided_target_idx=None if tg is None else tuple(self.ix(k) for k in tg),
+                       assumptions=self.adict(akey), sympy=val, _image=T("cont", val, akey), **self.flags(akey))
+        return r
+
+    def expr_rec(self, terms, akey):
+        val = t_add(*[t.attrs["sympy"] for t in terms]) if terms else 0
+        r = Rec(EXPR, "<expr>")
+        tg = akey[3]
+        r.attrs.update(terms=tuple(terms), provided_target_idx=None if tg is None else tuple(self.ix(k) for k in tg),
+                       assumptions=self.adict(akey), sympy=val, _image=T("cont", val, akey), **self.flags(akey))
+        return r
+
+    @staticmethod
+    def flags(akey):
+        return {"real": akey[0], "sym_tensors": akey[1], "antisym_tensors": akey[2]}
+
+    # -- unwrap a value that may contain container images
+    def unwrap(self, v):
+        if isinstance(v, Rec):
+            v = v.term
+        seen = []
+
+        def f(x):
+            if x.op == "cont":
+                if x.args[1] not in seen:
+                    seen.append(x.args[1])
+                return x.args[0]
+            return x
+        out = rebuild(v, f) if isinstance(v, T) else v
+        if len(seen) > 1:
+            self.clash.append(tuple(seen))
+        return out, seen
+
+
+def _num(c):
+    c = Fraction(c)
+    return int(c) if c.denominator == 1 else c
+
+
+def has_cont(t):
+    return any(x.op == "cont" for x in subterms(t))
+
+
+# ------------------------------------------------------------------------------------------------ evaluate_deltas model
+
+def einstein_per_object(d):
+    cnt = {}
+    for b in d:
+        for k in set(keys_of(b)):
+            cnt[k] = cnt.get(k, 0) + 1
+    return {k for k, n in cnt.items() if n == 1}
+
+
+def substitute(d, old, new):
+    out = {}
+    for b, e in d.items():
+        if is_tens(b) and old in b.args[1]:
+            ks = [new if k == old else k for k in b.args[1]]
+            b = delta(*ks) if b.args[0] == "delta" else tens(b.args[0], ks)
+            if b == 1:
+                continue
+        out[b] = out.get(b, 0) + e
+    return {b: (1 if is_delta(b) and e >= 1 else e) for b, e in out.items() if e != 0}
+
+
+def model_evaluate_deltas(monos, protected):
+    """Contract of func.evaluate_deltas on a sum of products (one space, equal spin: first index preferred)."""
+    out = []
+    for c, d in monos:
+        tg = einstein_per_object(d) if protected is None else protected
+        while True:
+            for b in sorted((b for b in d if is_delta(b) and d[b] >= 1), key=repr):
+                p, k = b.args[1]
+                if k not in tg:
+                    d = substitute(d, k, p)
+                    break
+                if p not in tg:
+                    d = substitute(d, p, k)
+                    break
+            else:
+                break
+        out.append((c, d))
+    return out
+
+
+def split_names(s):
+    out = []
+    for ch in s:
+        if ch.isdigit() and out:
+            out[-1] += ch
+        else:
+            out.append(ch)
+    return out
+
+
+# ------------------------------------------------------------------------------------------------ the evaluator
+
+class Run:
+    """One Symex configured with the container model; ``self.w`` is the world of the path being evaluated."""
+
+    def __init__(self, ctx, what):
+        self.w = None
+        self.sx = Symex(ctx.model, inline=lambda q: True, what=what, attr_hook=self.attr_hook, max_paths=64, hooks={
+            "Expr": self.h_expr, "KroneckerDelta": self.h_delta, "Pow": self.h_pow, "evaluate_deltas": self.h_evd,
+            "sort_idx_canonical": self.h_sortkey, "get_symbols": self.h_get_symbols})
+
+    # hooks ------------------------------------------------------------------
+    def h_expr(self, sx, args, kw):
+        kw = dict(kw)
+        e = args[0] if args else kw.pop("e", 0)
+        v, _ = self.w.unwrap(e)
+        if "**" in kw or len(args) > 1:
+            ak = ("?", (), (), None)
+        else:
+            ak = akey_of(**{k: kw[k] for k in kw if k in ("real", "sym_tensors", "antisym_tensors", "target_idx")})
+            if set(kw) - {"real", "sym_tensors", "antisym_tensors", "target_idx"}:
+                ak = ("?",) + ak[1:]
+        return T("cont", v, ak)
+
+    def h_delta(self, sx, args, kw):
+        if len(args) == 2 and all(isinstance(a, Obj) and a.__dict__["name"] in self.w.index for a in args):
+            return delta(args[0].__dict__["name"], args[1].__dict__["name"])
+        self.w.unknown.append("KroneckerDelta(" + ", ".join(show(sx_freeze(a)) for a in args) + ")")
+        return T("call", "KroneckerDelta", tuple(sx_freeze(a) for a in args), ())
+
+    def h_pow(self, sx, args, kw):
+        b, n = args
+        b, _ = self.w.unwrap(b) if isinstance(b, (T, Rec)) else (b, None)
+        if isinstance(n, int) and not isinstance(n, bool):
+            if n == 0:
+                return 1
+            return t_pow(b, n)
+        return T("pow", b, n)
+
+    def h_sortkey(self, sx, args, kw):
+        o = args[0]
+        if isinstance(o, Obj) and "name" in o.attrs:
+            nm = o.attrs["name"]
+            return (o.attrs["space"][0], o.attrs["spin"], int(nm[1:]) if nm[1:] else 0, nm[0])
+        return ("", 0, show(sx_freeze(o)), 0)
+
+    def h_get_symbols(self, sx, args, kw):
+        ind = args[0] if args else kw.get("indices")
+        if isinstance(ind, str) and not kw.get("spins") and len(args) < 2:
+            return [self.w.ix(n) for n in split_names(ind)]
+        if isinstance(ind, (list, tuple)) and all(isinstance(x, Obj) for x in ind):
+            return list(ind)
+        return NotImplemented
+
+    def h_evd(self, sx, args, kw):
+        kw = dict(kw)
+        e = args[0] if args else kw.pop("expr", None)
+        tg = args[1] if len(args) > 1 else kw.pop("target_idx", None)
+        plain = (isinstance(e, T) and not has_cont(e)) or not isinstance(e, (T, Obj))
+        if not plain:
+            # a container is neither an Add nor a Mul: the library function hands it back untouched
+            sx.effects.append(T("evd", False, "container"))
+            return e
+        v, _ = self.w.unwrap(e)
+        if tg is None:
+            prot, shown = None, None
+        elif isinstance(tg, str):
+            # get_symbols(<str>) builds spin-less indices
+            prot = set(split_names(tg))
+            shown = tg
+        elif isinstance(tg, (list, tuple, set, frozenset)) and all(isinstance(x, Obj) for x in tg):
+            prot = {x.__dict__["name"] for x in tg}
+            shown = tuple(sorted(prot))
+        else:
+            prot, shown = set(), "?" + show(sx_freeze(tg))
+        sx.effects.append(T("evd", True, repr(shown)))
+        res = model_evaluate_deltas(monomials(v), prot)
+        return t_add(*[t_mul(_num(c), *[t_pow(b, x) for b, x in sorted(d.items(), key=lambda y: repr(y[0]))]) for c, d in res]) \
+            if res else 0
+
+    def attr_hook(self, sx, obj, attr, node):
+        if isinstance(obj, T) and attr in ("terms", "sympy", "assumptions", "provided_target_idx") and has_cont(obj):
+            v, seen = self.w.unwrap(obj)
+            ak = seen[0]
+            if attr == "sympy":
+                return v
+            if attr == "assumptions":
+                return self.w.adict(ak)
+            if attr == "provided_target_idx":
+                return self.w.adict(ak)["target_idx"]
+            ms = monomials(v) or [(Fraction(0), {})]
+            return tuple(self.w.term_rec(c, sorted(d.items(), key=lambda y: repr(y[0])), ak) for c, d in ms)
+        return NotImplemented
+
+
+def sx_freeze(v):
+    from ..symex import _freeze
+    return _freeze(v)
+
+
+# ------------------------------------------------------------------------------------------------ scenarios
+
+def parse_term(s, spin=""):
+    """'-1/2 X:ia U:ki^2 W:m^-1' -> (coefficient, [(base, exponent)])."""
+    coeff, facs = Fraction(1), []
+    for tok in s.split():
+        if ":" not in tok:
+            coeff *= Fraction(tok)
+            continue
+        name, rest = tok.split(":")
+        idx, _, ex = rest.partition("^")
+        keys = [ch + ("_" + spin if spin else "") for ch in idx]
+        facs.append((tens(name, keys), int(ex) if ex else 1))
+    return coeff, facs
+
+
+class Scenario:
+    def __init__(self, sid, rule, what, terms, target=None, spin="", t_name=UNAME, ed=False, changed=None, raises=None,
+                 real=False, sym_tensors=(), antisym_tensors=(), as_term=False):
+        self.sid, self.rule, self.what = sid, rule, what
+        self.spin, self.t_name, self.ed, self.changed, self.raises = spin, t_name, ed, changed, raises
+        self.terms = [parse_term(t, spin) for t in ([terms] if isinstance(terms, str) else terms)]
+        self.text = " + ".join([terms] if isinstance(terms, str) else terms)
+        tg = None if target is None else tuple(sorted(ch + ("_" + spin if spin else "") for ch in target))
+        self.akey = (real, tuple(sorted(sym_tensors)), tuple(sorted(antisym_tensors)), tg)
+        self.as_term = as_term
+
+    def monos(self):
+        return monomials(t_add(*[t_mul(_num(c), *[t_pow(b, e) for b, e in facs]) for c, facs in self.terms]))
+
+    def targets(self):
+        """True target indices of every term (provided, else Einstein with full multiplicity); must agree over the terms."""
+        if self.akey[3] is not None:
+            return set(self.akey[3])
+        ts = [einstein(dict_of(facs)) for c, facs in self.terms]
+        if any(t != ts[0] for t in ts):
+            raise AnalysisError(f"C20 scenario {self.sid}: terms with different Einstein targets")
+        return ts[0]
+
+    def build(self, w):
+        terms = [w.term_rec(c, facs, self.akey) for c, facs in self.terms]
+        r = w.expr_rec(terms, self.akey)
+        if self.as_term:
+            # a container that is no Expr but offers everything the function reads from one
+            r.__dict__["cls"] = TERM
+            r.attrs.update(objects=terms[0].attrs["objects"])
+        return r
+
+
+def dict_of(facs):
+    d = {}
+    for b, e in facs:
+        d[b] = d.get(b, 0) + e
+    return d
+
+
+def counts(d):
+    """Occurrences of every index in a product: |exponent| times per position it stands in."""
+    cnt = {}
+    for b, e in d.items():
+        for k in keys_of(b):
+            cnt[k] = cnt.get(k, 0) + abs(e)
+    return cnt
+
+
+def einstein(d):
+    return {k for k, n in counts(d).items() if n == 1}
+
+
+# ------------------------------------------------------------------------------------------------ reference behaviour
+
+def rewrites(d, targets, uname):
+    """All single replacements the property allows on the product d."""
+    cnt = counts(d)
+    occ = []
+    for b, e in sorted(d.items(), key=lambda x: repr(x[0])):
+        if is_tens(b) and b.args[0] == uname and isinstance(e, int) and e > 0:
+            occ += [b] * e
+    out = []
+    for x, y in itertools.combinations(range(len(occ)), 2):
+        a, b = occ[x], occ[y]
+        if len(a.args[1]) != 2 or len(b.args[1]) != 2:
+            raise AnalysisError("reference: unitary tensor without two indices")
+        for pos in (0, 1):
+            p = a.args[1][pos]
+            if b.args[1][pos] != p or p in targets or cnt[p] != 2:
+                continue
+            q, r = a.args[1][1 - pos], b.args[1][1 - pos]
+            if q == r and q not in targets:
+                raise _OutOfDomain("pair sharing both indices with a contracted second index")
+            n = dict(d)
+            for t in (a, b):
+                n[t] -= 1
+            dl = delta(q, r)
+            if dl != 1:
+                n[dl] = n.get(dl, 0) + 1
+            n = {k: (1 if is_delta(k) and v >= 1 else v) for k, v in n.items() if v != 0}
+            out.append(n)
+    return out
+
+
+class _OutOfDomain(Exception):
+    pass
+
+
+def normal_forms(d, targets, uname, provided):
+    """Set of fixed points of the reference rewriting (keys) reachable from d."""
+    seen, nfs, stack = set(), {}, [d]
+    while stack:
+        x = stack.pop()
+        k = mono_key(1, x)
+        if k in seen:
+            continue
+        seen.add(k)
+        if not provided and einstein(x) != targets:
+            raise _OutOfDomain("Einstein targets change under the rewriting")
+        nxt = rewrites(x, targets, uname)
+        if not nxt:
+            nfs[k] = x
+        stack.extend(nxt)
+    return nfs
+
+
+def tvalue(name, vals, uname):
+    if name == "delta":
+        return Fraction(1 if vals[0] == vals[1] else 0)
+    if name == uname:
+        return UMAT[vals[0]][vals[1]]
+    h = sum((3 * k + 1) * (v + 1) for k, v in enumerate(vals)) * (len(name) + ord(name[0])) + ord(name[-1])
+    return Fraction(1 + h % 7, 2 + ord(name[-1]) % 3)
+
+
+def value(monos, targets, uname):
+    """{assignment of the targets: value}; all other indices of a product are summed over {0..DIM-1}."""
+    tg = sorted(targets)
+    out = {}
+    for asg in itertools.product(range(DIM), repeat=len(tg)):
+        env0 = dict(zip(tg, asg))
+        tot = Fraction(0)
+        for c, d in monos:
+            free = sorted({k for b in d for k in keys_of(b)} - set(tg))
+            for b in d:
+                if not is_tens(b):
+                    raise _Unknown(show(b))
+            s = Fraction(0)
+            for fa in itertools.product(range(DIM), repeat=len(free)):
+                env = dict(env0)
+                env.update(zip(free, fa))
+                p = Fraction(1)
+                for b, e in d.items():
+                    p *= tvalue(b.args[0], [env[k] for k in b.args[1]], uname) ** e
+                s += p
+            tot += c * s
+        out[asg] = tot
+    return out
+
+
+class _Unknown(Exception):
+    pass
+
+
+def expected_sets(scn):
+    """Per input term the dict of allowed results {key: product}; hand-written 'changed' flag cross-checked."""
+    tg = scn.targets()
+    per_term = []
+    for c, facs in scn.terms:
+        d = dict_of(facs)
+        nfs = normal_forms(d, tg, scn.t_name, scn.akey[3] is not None)
+        per_term.append((c, d, nfs))
+    return tg, per_term
+
+
+# ------------------------------------------------------------------------------------------------ checks
+
+def evaluate(ctx, run, scn, fnnode, ed=None):
+    def make():
+        run.w = World()
+        return dict(expr=scn.build(run.w), t_name=scn.t_name, evaluate_deltas=scn.ed if ed is None else ed)
+    outs = run.sx.run(fnnode, make)
+    return outs
+
+
+def result_monos(run, o):
+    v, seen = run.w.unwrap(o.value)
+    return monomials(v), seen
+
+
+def check_scenario(ctx, run, scn, fnnode):
+    rule, sid = scn.rule, scn.sid
+    what = f"{scn.what}: {scn.text}" + (f" [targets {','.join(scn.akey[3])}]" if scn.akey[3] is not None else "") + \
+        (f" [t_name={scn.t_name}]" if scn.t_name != UNAME else "") + (" [evaluate_deltas]" if scn.ed else "")
+    outs = evaluate(ctx, run, scn, fnnode)
+    if scn.raises:
+        ok = len(outs) >= 1 and all(o.kind == "raise" and o.exc == scn.raises for o in outs)
+        ctx.check(rule, fnnode, ok, f"{what}: refused with {scn.raises}",
+                  f"{what}: expected {scn.raises}, got {[o.exc if o.kind == 'raise' else 'a result' for o in outs]}", key=f"{sid} refused")
+        return
+    if len(outs) != 1 or outs[0].kind != "return":
+        ctx.bad(rule, fnnode, f"{what}: no single result: {[repr(o)[:160] for o in outs]}", key=f"{sid} result")
+        return
+    o = outs[0]
+    w = run.w
+    if not isinstance(o.value, (T, Rec)) or (isinstance(o.value, T) and not has_cont(o.value)):
+        ctx.bad(rule, fnnode, f"{what}: the result is not an Expr container: {show(sx_freeze(o.value))[:200]}", key=f"{sid} result")
+        return
+    got, seen = result_monos(run, o)
+    tg, per_term = expected_sets(scn)
+    # hand-written expectation of the scenario against the reference (self check of this module)
+    ref_changed = any(set(nfs) != {mono_key(1, d)} for c, d, nfs in per_term)
+    if scn.changed is not None and scn.changed != ref_changed:
+        raise AnalysisError(f"C20 scenario {sid}: reference rewriting {'changes' if ref_changed else 'keeps'} the term, "
+                            f"the scenario says otherwise")
+    # (1) reference normal form
+    allowed = []
+    for choice in itertools.product(*[[(c, x) for x in nfs.values()] for c, d, nfs in per_term]):
+        allowed.append(monomials(t_add(*[t_mul(_num(c), *[t_pow(b, e) for b, e in x.items()]) for c, x in choice])))
+    evd = [e for e in o.effects if isinstance(e, T) and e.op == "evd"]
+    if not scn.ed:
+        ok = any(expr_key(got) == expr_key(a) for a in allowed)
+        ctx.check(rule, fnnode, ok, f"{what} -> {show_monos(got)}",
+                  f"{what}: result {show_monos(got)}, expected {' or '.join(show_monos(a) for a in allowed[:3])}"
+                  + (f" (unmodelled: {w.unknown[0]})" if w.unknown else ""), key=f"{sid} form")
+    # (2) value
+    try:
+        v_in = value(scn.monos(), tg, scn.t_name)
+        for a in allowed:
+            if value(a, tg, scn.t_name) != v_in:
+                raise AnalysisError(f"C20 scenario {sid}: the reference rewriting does not preserve the value")
+        v_out = value(got, tg, scn.t_name)
+        diff = [k for k in v_in if v_in[k] != v_out[k]]
+        ctx.check(rule, fnnode, not diff, f"{what}: value unchanged for all {len(v_in)} target assignments",
+                  f"{what}: result {show_monos(got)} has another value for an orthogonal U, e.g. targets "
+                  f"{dict(zip(sorted(tg), diff[0])) if diff else ''}: {v_in[diff[0]] if diff else ''} -> {v_out[diff[0]] if diff else ''}",
+                  key=f"{sid} value")
+    except _Unknown as e:
+        ctx.bad(rule, fnnode, f"{what}: the result contains a factor that is no tensor of the term: {e}", key=f"{sid} value")
+    # (3) assumptions
+    ok = seen == [scn.akey] and not w.clash
+    ctx.check(rule, fnnode, ok, f"{what}: assumptions of the expression kept",
+              f"{what}: assumptions {seen} in the result / mixed on the way {w.clash[:1]}, the expression has {scn.akey}",
+              key=f"{sid} assumptions")
+    # (4) delta evaluation
+    if scn.ed:
+        ok = len(evd) == 1 and evd[0].args[0] is True
+        ctx.check(rule, fnnode, ok, f"{what}: deltas evaluated once on the content of the whole result",
+                  f"{what}: evaluate_deltas called {len(evd)} time(s)" + ("" if not evd or evd[0].args[0] else " on a container"),
+                  key=f"{sid} evaluated")
+    else:
+        ctx.check(rule, fnnode, not evd, f"{what}: no delta evaluation without request",
+                  f"{what}: evaluate_deltas is called although not requested", key=f"{sid} not evaluated")
+
+
+SCENARIOS = [
+    # ---- R20a: which pairs, which delta
+    Scenario("first", "R20a", "common first index", "U:ki U:kj", changed=True),
+    Scenario("second", "R20a", "common second index", "U:ik U:jk", changed=True),
+    Scenario("first-rem", "R20a", "common first index next to other objects", "U:ki U:kj X:im Y:jn", changed=True),
+    Scenario("second-rem", "R20a", "common second index next to other objects", "X:im U:ik Y:jn U:jk", changed=True),
+    Scenario("third-obj-1", "R20a", "common first index also on another object", "U:ki U:kj X:k", changed=False),
+    Scenario("third-obj-2", "R20a", "common second index also on another object", "U:ik U:jk X:k", changed=False),
+    Scenario("third-obj-1b", "R20a", "common first index on another object, other index twice", "U:ki U:kj X:ki", changed=False),
+    Scenario("third-obj-2b", "R20a", "common second index on another object, other index twice", "U:ik U:jk X:ki", changed=False),
+    Scenario("third-u-1", "R20a", "common first index on a third unitary tensor", "U:ki U:kj U:kl", changed=False),
+    Scenario("third-u-2", "R20a", "common second index on a third unitary tensor", "U:jk U:ik U:lk X:jm", changed=False),
+    Scenario("target-1", "R20a", "common first index is a target index", "U:ki U:kj X:ij", target="k", changed=False),
+    Scenario("target-2", "R20a", "common second index is a target index", "U:ik U:jk X:ij", target="k", changed=False),
+    Scenario("diag", "R20a", "diagonal of a transformed matrix", "U:ji U:ki X:jk", target="i", changed=False),
+    Scenario("mixed", "R20a", "common index in different positions", "U:ki U:jk", changed=False),
+    Scenario("mixed-rem", "R20a", "common index in different positions", "U:ik U:kj X:ij", changed=False),
+    Scenario("later-pair", "R20a", "the first pair of unitary tensors shares nothing", "U:mi U:kj U:kl", changed=True),
+    Scenario("later-pair-2", "R20a", "the first pairs are blocked, a later one is not", "U:mi U:mj U:mk U:ln U:la", changed=True),
+    Scenario("both", "R20a", "one pair per position", "U:ki U:kj U:ml U:nl", changed=True),
+    Scenario("not-2d", "R20a", "three-index tensor of that name", "U:kij U:kl", raises="NotImplementedError"),
+    Scenario("not-2d-single", "R20a", "one-index tensor of that name", "U:k U:ki U:kj", raises="NotImplementedError"),
+    # ---- R20b: how the term is rebuilt
+    Scenario("same-obj", "R20b", "same object twice, other index a target", "U:ki^2", target="i", changed=True),
+    Scenario("same-obj-rem", "R20b", "same object twice among other objects", "X:im U:ki^2 Y:in", target="i", changed=True),
+    Scenario("rest", "R20b", "objects before, between and behind the pair, prefactor", "-1/2 X:im U:ki Y:jn U:kj Z:mn^2 W:l^-1", changed=True),
+    Scenario("rest-second", "R20b", "objects before, between and behind the pair", "3 X:im U:ik Y:jn U:jk Z:mn", changed=True),
+    Scenario("one-u", "R20b", "a single unitary tensor", "U:ki X:ki", changed=False),
+    Scenario("no-u", "R20b", "no unitary tensor", "2 X:ij Y:jk", changed=False),
+    Scenario("chain", "R20b", "chain of pairs", "U:ki U:kj U:lj U:lm", changed=True),
+    Scenario("chain3", "R20b", "three successive replacements", "U:ki U:kj U:lj U:lm U:nm U:na X:ia", changed=True),
+    Scenario("terms", "R20b", "several terms", ["2 U:ki U:kj X:ij", "-1 U:ik U:jk Y:ij", "3 Z:ij W:ij", "U:ki U:kj V:kij"], changed=True),
+    Scenario("terms-first-only", "R20b", "only the last term simplifies", ["X:ij Y:ij", "5 U:ik U:jk Y:ij"], changed=True),
+    Scenario("assumptions", "R20b", "non-default assumptions", "U:ki U:kj X:im Y:jn", target="ijmn", real=True,
+             sym_tensors=("X",), antisym_tensors=("Y",), changed=True),
+    Scenario("not-expr", "R20b", "a container that is not an Expr", "U:ki U:kj", as_term=True, raises="TypeError"),
+    # ---- R20c: bookkeeping
+    Scenario("exp-mult", "R20c", "unitary object with exponent 2 next to a partner", "U:ki^2 U:kj", target="ij", changed=False),
+    Scenario("denominator", "R20c", "common index in a denominator", "U:ki U:kj X:k^-1", changed=False),
+    Scenario("denominator2", "R20c", "common index in a squared denominator", "U:ik U:jk X:k^-2", changed=False),
+    Scenario("rem-exp", "R20c", "other indices on a squared object", "U:ki U:kj X:ij^2", changed=True),
+    Scenario("diag-obj", "R20c", "common index twice on one other object", "U:ki U:kj X:kk", changed=False),
+    Scenario("name-exact", "R20c", "tensors whose name only contains the name", "UU:ki UU:kj U2:li U2:lj u:mi u:mj", changed=False),
+    Scenario("name-other", "R20c", "another tensor name requested", "U:ki U:kj X:ij", t_name="V", changed=False),
+    Scenario("name-used", "R20c", "the requested name decides", "A:ki A:kj U:li U:lj", t_name="A", target="ij", changed=True),
+    Scenario("prov-targets", "R20c", "all indices provided as targets", "U:ij U:kj", target="ijk", changed=False),
+    Scenario("prov-targets-c", "R20c", "provided targets, common index contracted", "U:ki U:kj X:i X:j", target="ij", changed=True),
+    Scenario("evd-plain", "R20c", "delta evaluation requested", "U:ki U:kj X:ij", ed=True),
+    Scenario("evd-target", "R20c", "delta evaluation requested, delta between a target and a contracted index", "2 U:ki U:kj X:jl", ed=True),
+    Scenario("evd-spin", "R20c", "delta evaluation requested, spin-labelled target indices", "U:ki U:kj X:l", spin="a", ed=True),
+    Scenario("evd-spin-b", "R20c", "delta evaluation requested, spin-labelled indices", "3 U:ik U:jk X:jl Y:m", spin="b", ed=True),
+    Scenario("evd-terms", "R20c", "delta evaluation requested, several terms", ["U:ki U:kj X:ij", "2 U:ik U:jk Y:ij"], ed=True),
+]
+
+
+def scenarios(ctx, rule):
+    fnnode = ctx.model.fn(FN)
+    n = 0
+    for scn in SCENARIOS:
+        if scn.rule != rule:
+            continue
+        run = Run(ctx, f"simplify_unitary[{scn.sid}]")
+        try:
+            check_scenario(ctx, run, scn, fnnode)
+        except _OutOfDomain as e:
+            raise AnalysisError(f"C20 scenario {scn.sid} is outside the decided domain: {e}")
+        n += 1
+    ctx.floor(rule, "model expressions evaluated", n, {"R20a": 20, "R20b": 12, "R20c": 15}[rule])
+
+
+def r20c_request(ctx):
+    """Delta evaluation exactly when requested: the flag is left symbolic, both paths are looked at."""
     rule = "R20c"
-    fn = ctx.model.fn(FN)
-    a = {U(x.targets[0]): U(x.value) for x in walk_fn(fn) if isinstance(x, ast.Assign)}
-    ctx.check(rule, fn, a.get("idx_counter") == "Counter(term.idx)", "occurrences counted over term.idx", f"counter is {a.get('idx_counter')}",
-              key="counter")
-    ctx.check(rule, fn, a.get("target") == "term.target", "targets of the term", f"target is {a.get('target')}", key="target")
-    ctx.check(rule, fn, a.get("unitary_tensors") == "[i for i, o in enumerate(obj) if o.name == t_name for _ in range(o.exponent)]",
-              "unitary objects by exact name, exponent-many times", f"{a.get('unitary_tensors')}", key="unitary list")
-    ctx.check(rule, fn, a.get("idx1") == "obj[i1].idx" and a.get("idx2") == "obj[i2].idx" and a.get("obj") == "term.objects",
-              "indices of the paired objects", "index sources changed", key="idx sources")
-    lp = [n for n in walk_fn(fn) if isinstance(n, ast.For) and "combinations" in U(n.iter)]
-    ctx.check(rule, fn, len(lp) == 1 and U(lp[0].iter) == "combinations(unitary_tensors, 2)" and U(lp[0].target) == "(i1, i2)",
-              "all pairs of unitary tensors", "pair enumeration changed", key="pairs")
-    top = ctx.model.fn("simplify:simplify_unitary")
-    ev = [c for c in calls_in(top, nested=False) if call_name(c) == "evaluate_deltas"]
-    ok = len(ev) == 1 and U(ev[0].args[0]) == "res.sympy" and ("evaluate_deltas", True) in conditions(ev[0]) and len(ev[0].args) == 1 \
-        and not ev[0].keywords
-    ctx.check(rule, top, ok, "delta evaluation only on request (Einstein targets of the result)", "delta evaluation changed", key="evaluate")
-    ic = ctx.model.fn("expr_container:Term._idx_counter")
-    a = {U(x.targets[0]): U(x.value) for x in walk_fn(ic) if isinstance(x, ast.Assign)}
-    ctx.check(rule, ic, a.get("n") == "abs(o.exponent)" and a.get("idx[s]") == "n - 1", "index counter: |exponent| occurrences per object",
-              f"_idx_counter: {a}", key="idx counter")
-    ti = ctx.model.fn("expr_container:Term.idx")
-    r = common.returns_of(ti)
-    ctx.check(rule, ti, U(r[0].value) == "tuple((s for s, n in self._idx_counter for _ in range(n + 1)))", "term.idx lists an index once per occurrence",
-              "Term.idx changed", key="term idx")
+    fnnode = ctx.model.fn(FN)
+    scn = Scenario("evd-flag", rule, "symbolic flag", "U:ki U:kj X:jl")
+    run = Run(ctx, "simplify_unitary[evd-flag]")
+    flag = sym("EVALUATE_DELTAS")
+    outs = evaluate(ctx, run, scn, fnnode, ed=flag)
+    rows = []
+    for o in outs:
+        pol = [p for a, p in o.path if a == flag]
+        evd = [e for e in o.effects if isinstance(e, T) and e.op == "evd"]
+        rows.append((pol[0] if pol else None, o.kind, len(evd)))
+    ok = sorted(rows, key=repr) == sorted([(True, "return", 1), (False, "return", 0)], key=repr)
+    ctx.check(rule, fnnode, ok, "delta evaluation if and only if the flag is set",
+              f"paths (flag, outcome, evaluate_deltas calls): {rows}", key="evd-flag")
+
+
+def r20c_term_tables(ctx):
+    """Term._idx_counter / idx / target / contracted against a direct count on model terms."""
+    rule = "R20c"
+    cases = [("U:ki U:kj X:k", None), ("U:ki^2 U:kj", None), ("U:ki U:kj X:k^-1", None), ("X:kk^-2 Y:ij^3 2", None),
+             ("U:ji U:ki X:jk", "i"), ("U:ij U:kj", "ijk"), ("-1 X:ij", None), ("U:ki U:kj X:l", None)]
+    for meth in ("_idx_counter", "idx", "target", "contracted"):
+        fnnode = ctx.model.fn(f"{TERM}.{meth}")
+        for text, target in cases:
+            scn = Scenario("t", rule, "", text, target=target, spin="a" if "l" in text else "")
+            run = Run(ctx, f"Term.{meth}")
+
+            def make():
+                run.w = World()
+                return dict(self=scn.build(run.w).attrs["terms"][0])
+            outs = run.sx.run(fnnode, make)
+            cnt = counts(dict_of(scn.terms[0][1]))
+            prov = scn.akey[3]
+            if meth == "_idx_counter":
+                want = {k: n - 1 for k, n in cnt.items()}
+            elif meth == "idx":
+                want = dict(cnt)
+            elif meth == "target":
+                want = {k: 1 for k in (prov if prov is not None else [k for k, n in cnt.items() if n == 1])}
+            else:
+                want = {k: 1 for k in cnt if (k not in prov if prov is not None else cnt[k] > 1)}
+            got = None
+            if len(outs) == 1 and outs[0].kind == "return" and isinstance(outs[0].value, (tuple, list)):
+                got = {}
+                try:
+                    for x in outs[0].value:
+                        if meth == "_idx_counter":
+                            k, n = x
+                            got[_key(k)] = got.get(_key(k), 0) + n if _key(k) in got else n
+                        else:
+                            got[_key(x)] = got.get(_key(x), 0) + 1
+                except (TypeError, ValueError):
+                    got = None
+            what = f"Term.{meth} of {text}" + (f" [targets {target}]" if target else "")
+            ctx.check(rule, fnnode, got == want, f"{what} = {want}", f"{what} gives {got if got is not None else outs}, a direct count gives {want}",
+                      key=f"{meth} {text} {target}")
+
+
+# ------------------------------------------------------------------------------------------------ thorough sweep
+
+def sweep(ctx):
+    fnnode = ctx.model.fn(FN)
+    letters = "ijk"
+    pairs = [a + b for a in letters for b in letters]
+    rems = [None] + [a for a in letters] + [a + b for a in letters for b in letters]
+    n = skipped = 0
+    bad = {}
+    run = Run(ctx, "simplify_unitary[sweep]")
+    for nu in (2, 3):
+        for us in itertools.combinations_with_replacement(pairs, nu):
+            for rem in (rems if nu == 2 else rems[:4]):
+                for target in (None, "i", "j", "k"):
+                    facs = {}
+                    for u in us:
+                        facs[u] = facs.get(u, 0) + 1
+                    text = " ".join(f"U:{u}" + (f"^{e}" if e > 1 else "") for u, e in facs.items()) + (f" X:{rem}" if rem else "")
+                    scn = Scenario(f"sweep {text} {target}", "R20a", "generated", text, target=target)
+                    try:
+                        tg, per_term = expected_sets(scn)
+                    except _OutOfDomain:
+                        skipped += 1
+                        continue
+                    outs = evaluate(ctx, run, scn, fnnode)
+                    n += 1
+                    if len(outs) != 1 or outs[0].kind != "return":
+                        bad.setdefault("result", []).append(text + f" [{target}]")
+                        continue
+                    got, seen = result_monos(run, outs[0])
+                    c, d, nfs = per_term[0]
+                    if expr_key(got) not in {expr_key([(c, x)]) for x in nfs.values()}:
+                        bad.setdefault("form", []).append(f"{text} [targets {target}] -> {show_monos(got)}, expected "
+                                                          f"{' or '.join(show_monos([(c, x)]) for x in nfs.values())}")
+                    try:
+                        if value(got, tg, UNAME) != value(scn.monos(), tg, UNAME):
+                            bad.setdefault("value", []).append(f"{text} [targets {target}] -> {show_monos(got)}")
+                    except _Unknown as e:
+                        bad.setdefault("value", []).append(f"{text} [targets {target}]: foreign factor {e}")
+                    if seen != [scn.akey] or run.w.clash:
+                        bad.setdefault("assumptions", []).append(f"{text} [targets {target}]")
+    ctx.floor("R20a", "generated terms evaluated", n, 3000)
+    ctx.note(f"sweep: {n} generated terms evaluated, {skipped} outside the decided domain")
+    for aspect, fact in (("form", "result is a normal form of the reference rewriting"), ("value", "value unchanged for an orthogonal U"),
+                         ("assumptions", "assumptions kept"), ("result", "a single result")):
+        rule = "R20b" if aspect == "assumptions" else "R20a"
+        ctx.check(rule, fnnode, aspect not in bad, f"{n} generated terms: {fact}",
+                  f"{len(bad.get(aspect, []))} of {n} generated terms: {fact} fails, e.g. {bad.get(aspect, [''])[0]}", key=f"sweep {aspect}")
 
 
 def run(ctx):
-    for r, f in (("R20a", r20a), ("R20b", r20b), ("R20c", r20c)):
+    for r in ("R20a", "R20b", "R20c"):
         if ctx.want(r):
-            f(ctx)
+            scenarios(ctx, r)
+    if ctx.want("R20c"):
+        r20c_request(ctx)
+        r20c_term_tables(ctx)
+
+
+def run_thorough(ctx):
+    if ctx.want("R20a") or ctx.want("R20b"):
+        sweep(ctx)
